@@ -384,18 +384,96 @@ The models above use `Nat` bytes, the translation `BitVec 8`: the abstraction fu
 /-- TIE: the translated `lower` (`c | 32`) is the model's `lower` on EVERY byte; it cannot panic. -/
 theorem c15_trans_lower (c : BitVec 8) :
     Golib.Gen.Trans.C15.lower c = .ok (BitVec.ofNat 8 (Golib.C15.lower c.toNat)) :=
-  trans_lower_eq c
+  Tie.trans_lower_eq c
 
 /-- TIE: the translated `fromHexChar` is the model's `fromHexChar` on EVERY byte: `(v, true)` where
 the model answers `some v`, `(0, false)` where it answers `none`; it cannot panic. -/
 theorem c15_trans_fromHexChar (c : BitVec 8) :
-    Golib.Gen.Trans.C15.fromHexChar c = .ok (hexCharPair (Golib.C15.fromHexChar c.toNat)) :=
-  trans_fromHexChar_eq c
+    Golib.Gen.Trans.C15.fromHexChar c = .ok (Tie.hexCharPair (Golib.C15.fromHexChar c.toNat)) :=
+  Tie.trans_fromHexChar_eq c
 
 /-- Non-vacuity: `'F'` is 15, `'g'` is rejected, `lower('X') = 'x'`. -/
 example : Golib.Gen.Trans.C15.fromHexChar 70#8 = .ok (15#8, true) ∧
     Golib.Gen.Trans.C15.fromHexChar 103#8 = .ok (0#8, false) ∧
     Golib.Gen.Trans.C15.lower 88#8 = .ok 120#8 := by
+  refine ⟨?_, ?_, ?_⟩ <;> decide +kernel
+
+/-- TIE: the translated generic `underscoreOK` (string and []byte instantiate to the same translation:
+a byte list) equals the model's `underscoreOK` — the definition `c15_underscoreOK_spec` and the
+base-0 theorems of `parseUint` are about — for EVERY string; abstraction `Tie.bytesOf = List.map
+BitVec.toNat`.  In particular no index or slice expression of it can panic (`s[0]`, `s[1]`, `s[1:]`,
+`s[i]` are guarded by the length tests) and the loop never runs out of fuel. -/
+theorem c15_trans_underscoreOK (s : List (BitVec 8)) :
+    Golib.Gen.Trans.C15.underscoreOK s = .ok (Golib.C15.underscoreOK (Tie.bytesOf s)) :=
+  Tie.trans_underscoreOK_eq s
+
+/-- The property clause directly on the generated definition: the code answers `true` exactly on the
+strings whose underscores separate digits. -/
+theorem c15_trans_underscoreOK_spec (s : List (BitVec 8)) :
+    Golib.Gen.Trans.C15.underscoreOK s = .ok true ↔
+      UnderscoresSeparateDigits (usParts (Tie.bytesOf s)).1 (usParts (Tie.bytesOf s)).2.1
+        (usParts (Tie.bytesOf s)).2.2 := by
+  rw [c15_trans_underscoreOK, ← c15_underscoreOK_spec]
+  constructor
+  · intro h; injection h
+  · intro h; rw [h]
+
+/-- Non-vacuity: `0x_1_f` is fine, `1__0`, `_1`, `1_` and `+0x` followed by `_` at the end are not. -/
+example : Golib.Gen.Trans.C15.underscoreOK [48#8, 120#8, 95#8, 49#8, 95#8, 102#8] = .ok true ∧
+    Golib.Gen.Trans.C15.underscoreOK [49#8, 95#8, 95#8, 48#8] = .ok false ∧
+    Golib.Gen.Trans.C15.underscoreOK [95#8, 49#8] = .ok false ∧
+    Golib.Gen.Trans.C15.underscoreOK [43#8, 48#8, 88#8, 49#8, 95#8] = .ok false := by
+  refine ⟨?_, ?_, ?_, ?_⟩ <;> decide +kernel
+
+/-- TIE: the translated `hexEncode(dst, src)` (generic over string/[]byte: one translation; `dst` is
+an in-out parameter of the translation: its final content comes after the result) against the
+model's `hexEncode?`: the model answers `some r` and, whenever `dst` has room for the text
+(`2·len(src) ≤ len(dst)`), the code returns `2·len(src)` and has written `r` over the first
+`2·len(src)` bytes of `dst`, leaving the rest untouched.  Neither table lookup nor write panics. -/
+theorem c15_trans_hexEncode (dst src : List (BitVec 8)) (h : 2 * src.length ≤ dst.length) :
+    ∃ r, hexEncode? (Tie.bytesOf src) = some r ∧
+      Golib.Gen.Trans.C15.hexEncode dst src
+        = .ok (((2 * src.length : Nat) : Int), r.map (BitVec.ofNat 8) ++ dst.drop (2 * src.length)) :=
+  ⟨_, Tie.hexEncode?_encBV src, by rw [Tie.trans_hexEncode_eq dst src h, Tie.ofBytes_bytesOf]⟩
+
+/-- TIE: the translated `HexEncode` (`make`, `hexEncode`, return `dst`) equals the model's
+`hexEncode?` — the definition `c15_hex_lower` and `c15_hex_decode_encode` are about — on EVERY
+string: the model answers `some r` and the code returns `r`; it cannot panic. -/
+theorem c15_trans_HexEncode (s : List (BitVec 8)) :
+    ∃ r, hexEncode? (Tie.bytesOf s) = some r ∧
+      Golib.Gen.Trans.C15.HexEncode s = .ok (r.map (BitVec.ofNat 8)) :=
+  ⟨_, Tie.hexEncode?_encBV s, by rw [Tie.trans_HexEncode_eq s, Tie.ofBytes_bytesOf]⟩
+
+/-- The property clause directly on the generated definition: `HexEncode` returns two lower-case
+hex digits per byte. -/
+theorem c15_trans_HexEncode_lower (s : List (BitVec 8)) :
+    ∃ out, Golib.Gen.Trans.C15.HexEncode s = .ok out ∧ out.length = 2 * s.length ∧
+      ∀ c ∈ out, isLowerHex c.toNat = true := by
+  obtain ⟨r, hr, hg⟩ := c15_trans_HexEncode s
+  have hb : ∀ b ∈ Tie.bytesOf s, b < 256 := by
+    intro b hb
+    simp only [Tie.bytesOf, List.mem_map] at hb
+    obtain ⟨c, _, rfl⟩ := hb
+    exact c.isLt
+  obtain ⟨out, ho, _, hlen, hlow⟩ := c15_hex_lower (Tie.bytesOf s) hb
+  rw [hr] at ho
+  injection ho with ho
+  subst ho
+  refine ⟨_, hg, by simpa [Tie.bytesOf] using hlen, ?_⟩
+  intro c hc
+  simp only [List.mem_map] at hc
+  obtain ⟨v, hv, rfl⟩ := hc
+  have hl := hlow v hv
+  have hv256 : v < 256 := by
+    unfold isLowerHex at hl
+    simp only [Bool.or_eq_true, Bool.and_eq_true, decide_eq_true_eq] at hl
+    omega
+  simpa [Nat.mod_eq_of_lt hv256] using hl
+
+/-- Non-vacuity: `HexEncode("\x00\xab\xff") = "00abff"`; `hexEncode` into a longer buffer keeps its tail. -/
+example : Golib.Gen.Trans.C15.HexEncode [0#8, 171#8, 255#8] = .ok [48#8, 48#8, 97#8, 98#8, 102#8, 102#8] ∧
+    Golib.Gen.Trans.C15.hexEncode [1#8, 2#8, 3#8] [171#8] = .ok (2, [97#8, 98#8, 3#8]) ∧
+    Golib.Gen.Trans.C15.hexEncode [1#8] [171#8] = .panic := by
   refine ⟨?_, ?_, ?_⟩ <;> decide +kernel
 -- END wave-8 tie block (trans-strconv)
 
